@@ -31,7 +31,7 @@ def shards(tier):
 def gates(c, tier):
     out = []
     for k in ("outcome:messages", "outcome:wait", "outcome:ProtocolError", "part:random", "part:operator", "part:bytesub", "part:truncate",
-              "part:nest", "post-error-receive-refused", "response:notice-checked", "response:unbind-checked"):
+              "part:nest", "post-error-receive-refused", "post-error-send-refused", "response:notice-checked", "response:unbind-checked"):
         if c.get(k, 0) == 0:
             out.append(f"never observed: {k}")
     cells = [k for k in c if k.startswith("cell:")]
@@ -111,6 +111,26 @@ def run_case(role, history, data: bytes, cuts):
                     out.append((f"post-error-escape:{type(e2).__name__}", f"receive after error raised {type(e2).__name__}: {e2}"))
             if sess.state is not S.ST.CLOSED:
                 out.append(("reopened-after-error", f"state {sess.state.name} after refused input"))
+            # a closed session refuses every send call and queues nothing
+            pending = sess.data_to_send()
+            calls = ([("bind_simple", lambda: sess.bind_simple("cn=a", "pw")), ("search_request", lambda: sess.search_request("dc=x")),
+                      ("extended_request", lambda: sess.extended_request("1.2")), ("unbind", sess.unbind)] if role == "client" else
+                     [("bind_response", lambda: sess.bind_response(1)), ("extended_response", lambda: sess.extended_response(1)),
+                      ("search_result_done", lambda: sess.search_result_done(1)), ("unbind", sess.unbind)])
+            for name, fn in calls:
+                try:
+                    fn()
+                    out.append((f"send-accepted-after-error:{name}", f"{name}() succeeded on a session closed by a protocol error"))
+                except sl.LDAPError:
+                    obs["post-error-send-refused"] = obs.get("post-error-send-refused", 0) + 1
+                except Exception as e3:
+                    out.append((f"post-error-send-escape:{name}:{type(e3).__name__}", f"{name}() after a protocol error raised {type(e3).__name__}: {e3}"))
+                extra = sess.data_to_send()
+                if extra:
+                    out.append((f"bytes-queued-after-error:{name}", f"{name}() on the closed session queued {len(extra)} bytes"))
+                if sess.state is not S.ST.CLOSED:
+                    out.append((f"reopened-by-send:{name}", f"{name}() moved the closed session to {sess.state.name}"))
+                    break
             break
         except RecursionError as e:
             out.append(("escape:RecursionError", f"receive raised RecursionError (state {sess.state.name})"))
